@@ -595,11 +595,24 @@ def eq_term(px, st, a, b):
     return t
 
 
+def deep_deref(px, st, t, depth=0):
+    """replace references nested inside an aggregate by the values they denote"""
+    if not isinstance(t, tuple) or depth > 4 or not t:
+        return t
+    if t[0] == "ref":
+        return deep_deref(px, st, px._read(st, t[1], t[2]), depth + 1)
+    if t[0] == "refconst":
+        return deep_deref(px, st, t[1], depth + 1)
+    if t[0] == "agg":
+        return ("agg", t[1], t[2], t[3], tuple((n, deep_deref(px, st, v, depth + 1)) for n, v in t[4]))
+    return t
+
+
 @model("std::cmp::PartialEq::eq", reason="== as an uninterpreted symmetric predicate over the compared values")
 def m_eq(px, st, fr, ev):
     a, b = ev["args"]
-    x = seq_of(px, st, a)
-    y = seq_of(px, st, b)
+    x = deep_deref(px, st, seq_of(px, st, a))
+    y = deep_deref(px, st, seq_of(px, st, b))
     if TY.get(x) is not None or TY.get(y) is not None or (is_const(x) and is_const(y)):
         return val(st.cons.lookup(mk_binop("Eq", x, y)))
     if x[0] in ("str", "bytes") and y[0] in ("str", "bytes"):
@@ -976,3 +989,29 @@ def m_set_len(px, st, fr, ev):
     def do(s):
         px._write(s, a[1], a[2], new)
     return val(UNIT, do=do)
+
+
+@model("std::vec::Vec::<T, A>::truncate", reason="truncate(n): drops the tail; when n is the length before the last append, that append is undone")
+def m_truncate(px, st, fr, ev):
+    a = ev["args"][0]
+    if a[0] != "ref":
+        return None
+    old = px._read(st, a[1], a[2])
+    n = ev["args"][1]
+    new = ("truncated", old, n)
+    if isinstance(old, tuple) and old[0] == "appended" and len_term(old[1]) == n:
+        new = old[1]
+
+    def do(s):
+        px._write(s, a[1], a[2], new)
+    return val(UNIT, do=do)
+
+
+@model("std::vec::Vec::<T, A>::push", reason="push(x): appends one element")
+def m_vec_push(px, st, fr, ev):
+    a = ev["args"][0]
+    full = ev["callee"].get("res_full") or ev["callee"].get("full") or ""
+    recv = ev["argops"][0].get("place", {}).get("ty", {}).get("s", "")
+    if a[0] != "ref" or "Vec<u8>" not in recv:
+        return None
+    return val(UNIT, do=append_to(px, st, a, ("byte", ev["args"][1]), fr, "push"))
